@@ -113,20 +113,21 @@ example : histOf [0, 0, 1, 3] true ≠ histOf [0, 0, 1, 3] false := by decide
 
 /-- `thresholding.soft_threshold` (current source), pointwise at `p` = `C16.softGen` on that element, over every linearly
     ordered commutative ring (the integers and the rationals in particular — the types `softGen` is proved at), for every
-    threshold (negative ones included). `np.abs` is the absolute value; `f.dtype.type(tval)` keeps the value of `tval`
+    threshold (negative ones included). The first mask is `(f > t) | (f < -t)` (since the repair db88c87: no `np.abs`,
+    which wraps at the most negative value of a signed dtype); `f.dtype.type(tval)` keeps the value of `tval`
     (it is only applied when `tval == int(tval)` on an integer image), so `step = tval` on both paths whatever the dtype test
-    says. Fixes the three masks `|f| > t`, `f > t`, `f < -t`, their order, and that later masks read the updated array. -/
+    says. Fixes the three masks `(f > t) | (f < -t)`, `f > t`, `f < -t`, their order, and that later masks read the updated array. -/
 theorem pybody_thresholding_soft_threshold_eq_model {K X : Type} [CommRing K] [LinearOrder K] [IsStrictOrderedRing K] [Div K]
     (ofInt : Int → K) (flit : Nat → Nat → K) (P : SoftPrims K X)
-    (habs : ∀ x, P.abs x = |x|) (hcast : ∀ g v, P.dtype_cast g v = v) (f : X → K) (t : K) (p : X) :
+    (hcast : ∀ g v, P.dtype_cast g v = v) (f : X → K) (t : K) (p : X) :
     thresholding_soft_threshold (fun n => (n : K)) ofInt flit P f t p = softGen (0 : K) (f p) t := by
-  simp only [thresholding_soft_threshold, softGen, habs, hcast, ite_self, Nat.cast_one, Nat.cast_zero, mul_ite, mul_one,
+  simp only [thresholding_soft_threshold, softGen, hcast, ite_self, Nat.cast_one, Nat.cast_zero, mul_ite, mul_one,
     mul_zero, gt_iff_lt, decide_eq_true_eq, zero_sub]
   by_cases hf : f p < 0
-  · rw [abs_of_neg hf]; simp only [hf, if_true]
-    split_ifs <;> simp_all
-  · rw [abs_of_nonneg (not_lt.mp hf)]; simp only [hf, if_false]
-    split_ifs <;> simp_all
+  · simp only [hf, if_true]
+    split_ifs <;> simp_all <;> linarith
+  · simp only [hf, if_false]
+    split_ifs <;> simp_all <;> linarith
 
 /-- non-vacuity (integers): shrink towards zero by `t = 2` -/
 example : [5, 2, -1, -7].map (fun f => softGen (0 : Int) f 2) = [3, 0, 0, -5] := by decide
